@@ -5,6 +5,7 @@ package swank
 import (
 	"fmt"
 	"io"
+	"math"
 	"strconv"
 
 	"github.com/ohler55/slip"
@@ -63,8 +64,21 @@ func ReadWireMessage(r io.Reader, scope *slip.Scope) (obj slip.Object, err error
 
 // WriteWireMessage writes a length-prefixed S-expression to the writer.
 func WriteWireMessage(w io.Writer, msg slip.Object) error {
-	// Serialize to S-expression string
-	payload := slip.ObjectString(msg)
+	// Serialize to S-expression text the peer can read back: strings are
+	// escaped, nothing is abbreviated and the user's print settings for
+	// base, length, level, lines and pretty printing do not apply.
+	p := *slip.DefaultPrinter()
+	p.Readably = true
+	p.ReadablyError = false
+	p.Escape = true
+	p.Pretty = true // an empty list is sent as () and not as nil
+	p.RightMargin = math.MaxInt
+	p.Base = 10
+	p.Radix = false
+	p.Length = math.MaxInt
+	p.Level = math.MaxInt
+	p.Lines = math.MaxInt
+	payload := p.Append(nil, msg, 0)
 
 	// Encode length as 6 uppercase hex digits
 	header := fmt.Sprintf("%06X", len(payload))
@@ -73,6 +87,6 @@ func WriteWireMessage(w io.Writer, msg slip.Object) error {
 	if _, err := w.Write([]byte(header)); err != nil {
 		return err
 	}
-	_, err := w.Write([]byte(payload))
+	_, err := w.Write(payload)
 	return err
 }
